@@ -195,6 +195,17 @@ pub mod hooks {
     pub fn stack_addr() -> u64 {
         h::STACK_ADDR.load(Relaxed)
     }
+    /// the addresses the last `on_start` recorded (a nested execution inside a helper overwrites them)
+    pub fn save() -> [u64; 5] {
+        [h::STACK_ADDR.load(Relaxed), h::MEM_ADDR.load(Relaxed), h::MEM_LEN.load(Relaxed), h::MBUFF_ADDR.load(Relaxed), h::MBUFF_LEN.load(Relaxed)]
+    }
+    pub fn restore(s: [u64; 5]) {
+        h::STACK_ADDR.store(s[0], Relaxed);
+        h::MEM_ADDR.store(s[1], Relaxed);
+        h::MEM_LEN.store(s[2], Relaxed);
+        h::MBUFF_ADDR.store(s[3], Relaxed);
+        h::MBUFF_LEN.store(s[4], Relaxed);
+    }
     pub fn mbuff() -> (u64, u64) {
         (h::MBUFF_ADDR.load(Relaxed), h::MBUFF_LEN.load(Relaxed))
     }
